@@ -573,18 +573,83 @@ def vs_samples(rng, n):
     return out
 
 
-def validate(ck, runs, vs, name, cfg="Tp_trace.cfg", count=True):
+def _opt_chunk(arg):
+    """optimize_geometry as a pure function: blocks read from a real .top, easy and deliberately hard (conflicting angle targets,
+    collapsed or random starts) instances; the claim is only 'reported success => every target within tolerance'"""
+    sd, n, wd = arg
+    wd = Path(wd)
+    wd.mkdir(parents=True, exist_ok=True)
+    rng = np.random.default_rng(sd)
+    random.seed(sd)
+    np.random.seed(sd % (2 ** 32))
+    from polyply.src import generate_templates as gt
+    from polyply.src import minimizer as mz
+    optimize = tu.need(mz, "optimize_geometry")
+    out = []
+    for i in range(n):
+        res = tu.random_residue(rng, "RO", nmax=6, with_vs=rng.random() < 0.3)
+        while len([t for t in res["atypes"] if t != "VS"]) < 3:
+            res = tu.random_residue(rng, "RO", nmax=6, with_vs=False)
+        hard = i % 2 == 1
+        if hard:
+            # conflicting targets: every bonded triple gets a wide angle (infeasible around a branched centre or in a ring)
+            real = [nm for nm, t in zip(res["names"], res["atypes"]) if t != "VS"]
+            edges = [(a, b) for a, b, _ in res["bonds"] + res["constraints"]]
+            adj = {x: sorted({b for a, b in edges if a == x} | {a for a, b in edges if b == x}) for x in real}
+            res["angles"] = [[nb[p], x, nb[q], float(rng.choice([150.0, 170.0, 60.0]))] for x, nb in adj.items() for p in range(len(nb)) for q in range(p + 1, len(nb))][:6]
+        mt = tu.molecule_from_residues("MO", [res], [])
+        (wd / "o.top").write_text(tu.render_top({"atomtypes": tu.ATOMTYPES, "moltypes": [mt], "molecules": [["MO", 1]]}))
+        try:
+            top = tu.load_topology(wd / "o.top")
+            mm = top.molecules[0]
+            block = gt.extract_block(mm.molecule, mm.nodes[0]["graph"], top.defines)
+            names = list(block.nodes)
+            mode = int(rng.integers(0, 3))
+            if mode == 0:
+                coords = gt._expand_inital_coords(block)
+            elif mode == 1:
+                coords = {nm: rng.normal(scale=0.3, size=3) for nm in names}
+            else:
+                coords = {nm: rng.normal(scale=0.01, size=3) for nm in names}
+            types_ = ["bonds", "constraints", "angles", "dihedrals"]
+            success, new = optimize(block, {k: np.array(v, float) for k, v in coords.items()}, types_)
+            worst, ok = {}, True
+            for it in types_:
+                for inter in block.interactions.get(it, []):
+                    p = [np.asarray(new[a], float) for a in inter.atoms]
+                    if it in ("bonds", "constraints"):
+                        d = abs(gm.distance(p[0], p[1]) - float(inter.parameters[1]))
+                    elif it == "angles":
+                        d = abs(gm.angle_deg(p[0], p[1], p[2]) - float(inter.parameters[1]))
+                    elif inter.parameters[0] == "2":
+                        d = abs(gm.dihedral_deg(p[0], p[1], p[2], p[3]) - float(inter.parameters[1]))
+                        d = min(d, 360.0 - d)
+                    else:
+                        continue
+                    worst[it] = max(worst.get(it, 0.0), float(d))
+                    if not d <= TOLER[it] * (1 + 1e-9) + 1e-9:
+                        ok = False
+            out.append({"success": bool(success), "targets_ok": bool(ok), "hard": hard, "raw": {"residue": res, "start": mode, "worst": worst, "seed": sd, "i": i}})
+        except tu.ItemTimeout:
+            raise
+        except Exception as exc:
+            out.append({"success": True, "targets_ok": False, "hard": hard, "raw": {"residue": res, "exception": "%s: %s" % (type(exc).__name__, exc), "seed": sd, "i": i}})
+    return out
+
+
+def validate(ck, runs, vs, name, cfg="Tp_trace.cfg", count=True, opt=()):
     wd = c.workdir("C15", name)
     content = {}
     for r in runs:
         content.update(r["content"])
     if not content:
         content = {"none": {"rn": "RX", "nm": ["A"], "ed": []}}
-    doc = {"content": content, "traces": [r["trace"] for r in runs], "vs": [{k: s[k] for k in ("kind", "matches_gmx", "equivariant")} for s in vs]}
+    doc = {"content": content, "traces": [r["trace"] for r in runs], "vs": [{k: s[k] for k in ("kind", "matches_gmx", "equivariant")} for s in vs],
+           "opt": [{k: o[k] for k in ("success", "targets_ok")} for o in opt]}
     f = wd / "traces.json"
     f.write_text(json.dumps(doc))
     res = c.tlc("TpTrace", cfg, workers=1, env={"TRACE_FILE": str(f)}, check=False)
-    rej, rejvs = res.tagged("REJECTED"), res.tagged("REJECTEDVS")
+    rej, rejvs = res.tagged("REJECTED"), res.tagged("REJECTEDVS") + [[-int(i) for i in r] for r in res.tagged("REJECTEDOPT")]
     if res.rc != 0 and not rej and not rejvs:
         raise c.MachineryError("TpTrace failed: %s" % res.out[-2500:])
     rejected = {}
@@ -668,12 +733,9 @@ def run(tier):
     if not gcases:
         raise c.MachineryError("TpGroup exported nothing")
     ck.extra["grouping_pairs_decided_by_TLC"] = len(gcases)
-    if True:
-        def cls(x):
-            return (x["same"], sorted(x["xnames"]) == sorted(x["ynames"]), x["rny"], x["joined"], x["x"]["n"], x["y"]["n"])
-        gsel = _stratified(gcases, cls, rng, 12)
-    else:
-        gsel = _stratified(gcases, cls, rng, 90)
+    def cls(x):
+        return (x["same"], sorted(x["xnames"]) == sorted(x["ynames"]), x["rny"], x["joined"], x["x"]["n"], x["y"]["n"])
+    gsel = _stratified(gcases, cls, rng, 12 if quick else 90)
     ck.extra["grouping_pairs_replayed"] = len(gsel)
     for x in gsel:
         ck.nontrivial.add("g" + json.dumps([x["x"], x["y"], x["rny"], x["joined"]])) if x["x"]["n"] >= 2 and x["y"]["n"] >= 2 else None
@@ -730,7 +792,15 @@ def run(tier):
     if timeouts > nruns // 2 or not runs:
         raise c.MachineryError("%d of %d template runs timed out" % (timeouts, nruns))
     vs = vs_samples(np.random.default_rng(sd + 3), 350 if quick else 3500)
-    rejected, badvs = validate(ck, runs, vs, "traces")
+    nopt = 12 if quick else 60
+    chunks_ = tu.pmap_timeout(_opt_chunk, [(sd * 7919 + j, 10, str(wd / ("o%d" % j))) for j in range(nopt)], limit=120)
+    opt = [o for st, part, _ in chunks_ if st == "ok" for o in part]
+    ck.extra["optimize_geometry_samples"] = {"total": len(opt), "reported_success": sum(1 for o in opt if o["success"]),
+                                             "reported_failure": sum(1 for o in opt if not o["success"]),
+                                             "chunks_timed_out_no_verdict": sum(1 for st, _, _ in chunks_ if st != "ok")}
+    rejected, badvs = validate(ck, runs, vs, "traces", opt=opt)
+    badopt = [-i for i in badvs if i < 0]
+    badvs = [i for i in badvs if i > 0]
     stats = {"events": 0, "generated": 0, "optimised": 0, "with_vs": 0, "user_templates": 0, "user_volumes": 0, "shared": 0}
     for r in runs:
         for ev, raws in zip(r["trace"]["events"], r["raw"]):
@@ -770,6 +840,12 @@ def run(tier):
             ck.violation(case, sig=SIG_VOL, what=what)       # accepted by the I-layer with DevVolLost: exactly the known deviation
         else:
             ck.violation(case, what=what)
+    for i in badopt:
+        ck.violation({"kind": "optimize_geometry", "sample": opt[i - 1]}, what="optimize_geometry reported success but a target is outside its tolerance: worst deviations %s" % (
+            json.dumps(opt[i - 1]["raw"].get("worst", opt[i - 1]["raw"].get("exception")))[:300]))
+    ck.evaluations += len(opt)
+    if not ck.violations and not (ck.extra["optimize_geometry_samples"]["reported_success"] and ck.extra["optimize_geometry_samples"]["reported_failure"]):
+        raise c.MachineryError("vacuous optimiser samples: %s" % ck.extra["optimize_geometry_samples"])
     for i in badvs:
         ck.violation({"kind": "construct_vs", "sample": vs[i - 1]}, what="construct_vs %s differs from the GROMACS construction or is not equivariant: %s" % (
             vs[i - 1]["kind"], json.dumps(vs[i - 1]["raw"])[:400]))
